@@ -11,7 +11,9 @@ if ! git -C "$WT" apply "$PATCH"; then echo "PATCH DOES NOT APPLY"; git -C /repo
 rsync -a --exclude .git --exclude replays /verif/ "$VC"/
 cd "$VC" && DEEPALI_REPO="$WT" timeout 3000 ./check "$PID" --tier "$TIER" > "/tmp/${TAG}.log" 2>&1
 RC=$?
-grep -E "VIOLATION|KNOWN-FINDING|obligations" "/tmp/${TAG}.log" | cut -c1-300 | head -20
+grep -E "VIOLATION|KNOWN-FINDING" "/tmp/${TAG}.log" | cut -c1-300 | head -${MUTCHECK_LINES:-20}
+grep -E "^C[0-9]+: obligations" "/tmp/${TAG}.log" | cut -c1-300
+echo "violations_with_input=$(grep '^VIOLATION' "/tmp/${TAG}.log" | grep -vc no-failing-input-found) violations_without_input=$(grep '^VIOLATION' "/tmp/${TAG}.log" | grep -c no-failing-input-found)"
 echo "exit=$RC"
 git -C /repo worktree remove --force "$WT"; rm -rf "$VC" "/tmp/${TAG}.log"
 exit $RC
